@@ -158,13 +158,15 @@ def parts_of(spec):
 class Graph:
     """identity set over three modules + the leaf module; defs in an order where bases come first"""
 
-    def __init__(self, k, defs):
+    def __init__(self, k, defs, disabled=()):
         self.k = k
         self.defs = defs                     # [( (mod, name), [(mod, name), ...] )]
         self.ids = [d[0] for d in defs]
+        self.disabled = set(disabled)        # identities whose if-feature is false: they exist and can be bases, but are not values
 
     def text(self):
-        return ",".join("%s.%s%s" % (i[0], i[1], ("<" + "+".join("%s.%s" % b for b in bs)) if bs else "") for i, bs in self.defs)
+        return ",".join("%s.%s%s%s" % (i[0], i[1], "!" if i in self.disabled else "", ("<" + "+".join("%s.%s" % b for b in bs)) if bs else "")
+                        for i, bs in self.defs)
 
     def derived(self, base, d):
         """transitive, irreflexive: d names base in a base statement, or an identity derived from base"""
@@ -191,7 +193,9 @@ class Graph:
 def diamond(k):
     a, b, c = "ma%d" % k, "mb%d" % k, "mc%d" % k
     return Graph(k, [((a, "top"), []), ((a, "other"), []), ((b, "left"), [(a, "top")]), ((b, "right"), [(a, "top")]), ((c, "bot"), [(b, "left"), (b, "right")]),
-                     ((c, "left"), [(a, "top")]), ((c, "deep"), [(c, "bot")]), ((c, "both"), [(a, "other"), (b, "left")]), ((b, "lonely"), [])])
+                     ((c, "left"), [(a, "top")]), ((c, "deep"), [(c, "bot")]), ((c, "both"), [(a, "other"), (b, "left")]), ((b, "lonely"), []),
+                     ((b, "mid"), [(a, "top")]), ((c, "under"), [(b, "mid")]), ((c, "gone"), [(b, "left")])],
+                 disabled=[(b, "mid"), (c, "gone")])       # `under` is derived from top THROUGH the disabled `mid`
 
 
 def random_graph(rng, k):
@@ -217,7 +221,7 @@ def random_graph(rng, k):
                 if b not in bs:
                     bs.append(b)
         defs.append((i, bs))
-    return Graph(k, defs)
+    return Graph(k, defs, disabled=[d[0] for d in defs if rng.random() < 0.15])
 
 
 def idref_types(rng, g, leafk):
@@ -233,7 +237,7 @@ def idref_types(rng, g, leafk):
         lm = "lm%d" % leafk[0]
         leafk[0] += 1
         defs = list(g.defs) + [((lm, "loc"), [bases[0]])]
-        gg = Graph(g.k, defs)
+        gg = Graph(g.k, defs, g.disabled)
         out.append(("idref:%s:%s@%s" % (lm, "+".join("%s.%s" % b for b in bases), gg.text()), lm, bases, gg))
     return out
 
@@ -543,10 +547,10 @@ def run_idref(run):
     types = []
     for g in graphs:
         types += idref_types(rng, g, leafk)
-    types[0] = ("idref:lmd:ma0.top@" + Graph(0, diamond(0).defs + [(("lmd", "loc"), [("mb0", "left")])]).text(), "lmd", [("ma0", "top")],
-                Graph(0, diamond(0).defs + [(("lmd", "loc"), [("mb0", "left")])]))
-    types[1] = ("idref:lme:mb0.left+mb0.right@" + Graph(0, diamond(0).defs + [(("lme", "loc"), [("mb0", "left")])]).text(), "lme", [("mb0", "left"), ("mb0", "right")],
-                Graph(0, diamond(0).defs + [(("lme", "loc"), [("mb0", "left")])]))
+    types[0] = ("idref:lmd:ma0.top@" + Graph(0, diamond(0).defs + [(("lmd", "loc"), [("mb0", "left")])], diamond(0).disabled).text(), "lmd", [("ma0", "top")],
+                Graph(0, diamond(0).defs + [(("lmd", "loc"), [("mb0", "left")])], diamond(0).disabled))
+    types[1] = ("idref:lme:mb0.left+mb0.right@" + Graph(0, diamond(0).defs + [(("lme", "loc"), [("mb0", "left")])], diamond(0).disabled).text(), "lme", [("mb0", "left"), ("mb0", "right")],
+                Graph(0, diamond(0).defs + [(("lme", "loc"), [("mb0", "left")])], diamond(0).disabled))
     cases, vals = [], {}
     nschema = 0
     for d, lm, bases, g in types:
@@ -590,7 +594,7 @@ def run_idref(run):
             want = None
             if ident is not None and name:
                 der = [g.derived(b, ident) for b in bases]
-                want = ("%s:%s" % ident) if all(der) else None
+                want = ("%s:%s" % ident) if all(der) and ident not in g.disabled else None
             else:
                 der = []
             got = unhex(r[1]).decode() if r[0] == "ok" else None
@@ -653,7 +657,7 @@ def run_union_idref(run):
         bases = [rng.choice(roots)] if k else [("ma100", "top")]
         for shape in range(2):
             lm = "lu%d" % (2 * k + shape)
-            g = Graph(g0.k, list(g0.defs) + [((lm, "loc"), [bases[0]])])
+            g = Graph(g0.k, list(g0.defs) + [((lm, "loc"), [bases[0]])], g0.disabled)
             idd = "idref:%s:%s@%s" % (lm, "+".join("%s.%s" % b for b in bases), g.text())
             u = ("U(%s|str:0..12)" % idd) if shape == 0 else ("U(i8|%s|%s)" % (idd, E2))
             types.append((u, lm, g))
